@@ -80,6 +80,18 @@ for k, v in I.items():
     c, text, note, tech, ref = T[k]
     T[k] = (c, text + v, note, tech, ref)
 
+# round j additions
+Jx = {
+ "C05": " Round j: signAndInsertSelfEvent / insertEventAndRunConsensus return an explicit nil only after the insertion returned nil.",
+ "C10": " Round j: every source of the round passed to SetPeerSet is roundReceived+6; strongly-see quorums counted against the round's own set (C10.pair).",
+ "C16": " Round j: the in-memory store refuses an event before caching it (C16.store).",
+ "C19": " Round j: round-received needs a supermajority of famous witnesses that all see the event (C19.rr).",
+ "C20": " Round j: the socket clients return the RPC reply unmodified (C20.replyintact).",
+}
+for k, v in Jx.items():
+    c, text, note, tech, ref = T[k]
+    T[k] = (c, text + v, note, tech, ref)
+
 NA = {
  "C06": "Liveness under fair gossip quantifies over unbounded fair schedules and asserts a bound on exchanges until idle; no clause is visible in the shape of the code (termination of virtual voting is semantic/probabilistic). Static analysis in reach cannot bound it (DESIGN.md §5).",
 }
